@@ -80,8 +80,10 @@ def rule_r1(p, res):
     ok = False
     for c in calls_in(conv.node):
         if (dotted(c.func) or "") == "csr_matrix" and c.args and isinstance(c.args[0], ast.Tuple) and len(c.args[0].elts) == 2 and isinstance(c.args[0].elts[1], ast.Tuple):
-            rc = [norm(x) for x in c.args[0].elts[1].elts]
-            ok = rc == ["edges[:, 0]", "edges[:, 1]"]
+            dcv = Defs(conv.node)
+            ep = conv.params[0]
+            rc = [str(norm(expand(x, dcv))) for x in c.args[0].elts[1].elts]
+            ok = rc == ["%s[:, 0]" % ep, "%s[:, 1]" % ep]
             site = c
     need(any((dotted(c.func) or "") == "csr_matrix" for c in calls_in(conv.node)), "C14.R1: converter no longer builds a csr_matrix")
     r.check(ok, conv, conv.node, "edge (a, b) must be stored at row a, column b (rows=edges[:,0], cols=edges[:,1])", {"site": "converter"})
@@ -150,7 +152,15 @@ def rule_r1(p, res):
     fp = p.own_method("Graph", "find_all_paths")
     r.instance(fp)
     loops = [n for n in walk_own(fp.node) if isinstance(n, ast.For)]
-    r.check(any(norm(n.iter) == "list(self.adjacency_matrix[%s, :].nonzero()[1])" % fp.params[1] for n in loops), fp, fp.node, "path search must expand the successors (row) of the current vertex")
+    dfp = Defs(fp.node)
+    succ_ok = ("list(self.adjacency_matrix[%s, :].nonzero()[1])" % fp.params[1], "self.adjacency_matrix[%s, :].nonzero()[1]" % fp.params[1], "self.children(%s)" % fp.params[1])
+    its = [str(norm(expand(n.iter, dfp))) for n in loops] + [str(norm(expand(c.args[0], dfp))) for c in calls_in(fp.node) if isinstance(c.func, ast.Attribute) and c.func.attr == "extend" and c.args]
+    col_form = "self.adjacency_matrix[:, %s]" % fp.params[1]
+    if any(col_form in x for x in its):
+        r.violation(fp, fp.node, "path search expands the predecessors (column) of the current vertex instead of its successors (row)")
+    else:
+        need(any(x in succ_ok or any(y in x for y in succ_ok) for x in its), "C14.R1: the successor expansion of find_all_paths was not recognised")
+        r.ok({"site": "find_all_paths"})
     # isolated vertices: no entry in their row and none in their column
     iv = p.func(G + "_isolated_vertices")
     r.instance(iv)
@@ -200,7 +210,11 @@ def rule_r3(p, res):
     d = Defs(f.node)
     mk = f.params[0]
     keep = d.single("indices_to_keep")
-    r.check(keep is not None and norm(keep) in ("np.nonzero(%s)[0]" % mk, "np.flatnonzero(%s)" % mk), f, f.node, "kept vertices = positions where the mask is True")
+    if keep is None:
+        cands = [v_ for nm_, ds_ in d.defs.items() for k_, v_, st_ in ds_ if k_ == "assign" and isinstance(v_, ast.AST) and ("nonzero(" in norm(v_)) and mk in norm(v_)]
+        keep = cands[0] if len(cands) == 1 else None
+    need(keep is not None, "C14.R3: the index of kept vertices was not found in _mask_adjacency_matrix_and_points")
+    r.check(norm(keep) in ("np.nonzero(%s)[0]" % mk, "np.flatnonzero(%s)" % mk, "np.where(%s)[0]" % mk), f, f.node, "kept vertices = positions where the mask is True")
     sel = [norm(v) for k, v, s in d.of(f.params[1]) if k == "assign"]
     r.check(sorted(sel) == sorted(["%s[indices_to_keep, :]" % f.params[1], "%s[:, indices_to_keep]" % f.params[1]]), f, f.node,
             "rows and columns must both be selected with the kept indices (found %s)" % sel, {"adjacency_selection": sel})
